@@ -136,7 +136,7 @@ var base0 *simstorage.World
 var freeWorld = map[string]bool{"C24": true, "C14": true, "C09": true, "C04": true}
 
 func (m *machine) viol(key, format string, a ...interface{}) string {
-	return vkit.Violation(m.prop, key, "%s :: last steps %v", fmt.Sprintf(format, a...), m.h.Render(8))
+	return vkit.Violation(m.prop, key, "%s :: last steps %v", fmt.Sprintf(format, a...), m.h.Render(vkit.EnvInt("VERIF_HISTORY", 8)))
 }
 
 func (m *machine) fail(key, format string, a ...interface{}) {
@@ -644,8 +644,12 @@ func (m *machine) step() {
 		m.do(w.UpdateBlobberSettings(from, b, u))
 	case "storageSettings":
 		// the contract owner changes one of the economic parameters (the oracles read the configuration from the state)
-		name := rapid.SampledFrom([]string{"blobber_slash", "stakepool.kill_slash", "cancellation_charge", "validator_reward", "blobber_slash", "stakepool.kill_slash"}).Draw(t, "setting")
+		name := rapid.SampledFrom([]string{"blobber_slash", "stakepool.kill_slash", "cancellation_charge", "validator_reward", "blobber_slash", "stakepool.kill_slash", "max_stake", "free_allocation_settings.read_pool_fraction"}).Draw(t, "setting")
 		val := rapid.SampledFrom([]string{"0", "0.1", "0.5", "1", "0.025"}).Draw(t, "value")
+		if name == "max_stake" {
+			// (in tokens) low enough for two ordinary locks of one delegate to exceed it together
+			val = rapid.SampledFrom([]string{"160", "25", "20000", "300"}).Draw(t, "maxStake")
+		}
 		if o := m.do(w.UpdateSettings(nil, map[string]string{name: val})); ok(o) {
 			m.do(w.CommitSettingsChanges())
 		}
@@ -908,6 +912,15 @@ func (m *machine) step() {
 			m.h.NextBlock(d, 2*d)
 		}
 		m.do(w.BlobberBlockRewards())
+	case "freeWithReadShare":
+		// the owner sets the share of a free-storage grant that goes to the recipient's read pool, then grants follow
+		val := rapid.SampledFrom([]string{"0.5", "0.1", "1", "0.025"}).Draw(t, "readPoolFraction")
+		if o := m.do(w.UpdateSettings(nil, map[string]string{"free_allocation_settings.read_pool_fraction": val})); ok(o) {
+			m.do(w.CommitSettingsChanges())
+		}
+		for i, k := 0, rapid.IntRange(1, 3).Draw(t, "grants"); i < k; i++ {
+			m.freeAlloc()
+		}
 	case "readRedeem2":
 		m.readRedeem2()
 	case "addAssigner":
